@@ -57,7 +57,7 @@ def generate(rng, seed, tier='quick'):
     trials = []
     if n <= 64:
         for c in range(1, n):
-            trials.append({'cuts': [c], 'gap_us': rng.choice([0, 1, 50]), 'end': 'eof', 'end_off': n})
+            trials.append({'cuts': [c], 'gap_us': rng.choice([0, 1, 50, 50, 1_500_000]), 'end': 'eof', 'end_off': n})
         for e in range(0, n + 1):
             trials.append({'cuts': [], 'gap_us': 0, 'end': rng.choice(['eof', 'eof', 'reset']), 'end_off': e, 'eof_same_wakeup': rng.random() < 0.4,
                            'reopen': rng.random() < 0.5, 'exc': rng.choice(['reset', 'reset', 'timeout', 'abort', 'pipe', 'unreach'])})
@@ -83,7 +83,7 @@ def generate(rng, seed, tier='quick'):
             end = rng.choice(['eof', 'eof', 'reset', 'none'])
             end_off = n if rng.random() < 0.5 else (min(n, rng.choice(bounds) + rng.randint(0, 12)) if rng.random() < 0.7
                                                     else rng.randint(0, n))
-            trials.append({'cuts': sorted(set(c for c in cuts if 0 < c < n)), 'gap_us': rng.choice([0, 1, 2, 50]),
+            trials.append({'cuts': sorted(set(c for c in cuts if 0 < c < n)), 'gap_us': rng.choice([0, 1, 2, 50, 50, 1_200_000, 5_000_000]),
                            'end': end, 'end_off': end_off, 'reopen': end != 'none' and rng.random() < 0.5,
                            'exc': rng.choice(['reset', 'reset', 'timeout', 'abort', 'pipe', 'unreach'])})
     return {'engine': 'framing', 'property': 'C06', 'seed': seed,
@@ -93,7 +93,7 @@ def generate(rng, seed, tier='quick'):
 
 def _run_trial(sc, trial, agg):
     stream = b''.join(bytes.fromhex(h) for h in sc['packets'])
-    w = World({'seed': sc['seed'], 'config': sc['config']}, max_steps=400000)
+    w = World({'seed': sc['seed'], 'config': sc['config']}, max_steps=400000, max_time=36000.0)
     try:
         peer = StreamPeer(lambda wire: None)
         peer.install(w.seams)
